@@ -398,6 +398,7 @@ public:
       // for incremental mode blocks.
       ASMJIT_ASSERT(_search_start >= released_area_size);
       _search_start -= released_area_size;
+      _search_end = _area_size;
       _largest_unused_area += released_area_size;
 
       if (area_used() == initial_area_start()) {
@@ -435,6 +436,7 @@ public:
 
     if (Support::bool_and(is_incremental(), _search_start == shrunk_area_end)) {
       _search_start -= shrunk_area_size;
+      _search_end = _area_size;
       _largest_unused_area += shrunk_area_size;
     }
     else {
